@@ -456,7 +456,8 @@ var interpretedForeign = map[string]bool{"slices": true, "maps": true, "cmp": tr
 // interpretedForeignFunc: small pure methods of foreign error types that yardl code calls (participle.Error).
 func interpretedForeignFunc(fn *ssa.Function) bool {
 	n := fn.String()
-	return strings.HasPrefix(n, "(*github.com/alecthomas/participle/v2.ParseError).") || strings.HasPrefix(n, "(*github.com/alecthomas/participle/v2.UnexpectedTokenError).")
+	return strings.HasPrefix(n, "(*github.com/alecthomas/participle/v2.ParseError).") || strings.HasPrefix(n, "(*github.com/alecthomas/participle/v2.UnexpectedTokenError).") ||
+		strings.HasPrefix(n, "(*gopkg.in/yaml.v3.TypeError).")
 }
 
 // callSSA interprets a call to function fn with arguments args,
